@@ -62,7 +62,7 @@ CHECKS = [
          note="Trusted: TLC, the projection, the in-memory object store (ListOp checked against ObjectStore.tla). Order: bundles by id, labels by name, repos name-or-key order; diamonds/splits completeness and exactness only",
          technique="TLA+ model checking (TLC) of the scan algorithm + replay of TLC-enumerated contents and TLC-generated histories on the listing API"),
     dict(id="C08",
-         text='TLC-generated label histories (set, overwrite - also through a re-used or just resolved label object -, delete, bundle delete, repo delete/rename) over prefix-related repositories replayed on pkg/core; get/list of every label after every step compared with Meta!GetLabelOp/ListLabelsOp; full projection shows that a label set changes nothing else',
+         text='TLC-generated label histories (set, overwrite - also through a re-used or just resolved label object -, delete, bundle delete, repo delete/rename; LabelNames.tla: accepted names - documented alphabet and hostile ones - resolve, are listed once and under every prefix of theirs and only there) over prefix-related repositories replayed on pkg/core; get/list of every label after every step compared with Meta!GetLabelOp/ListLabelsOp; full projection shows that a label set changes nothing else',
          design_ref="§3 C08",
          note='Trusted: TLC, the projection (real store -> abstract state), the in-memory object store (checked against ObjectStore.tla), harness-chosen KSUIDs. Bounds: 3 prefix-related repos, 13 paths incl. generated decoys, look-alikes of the reserved names and a dotted sibling, 4 contents, <= 5-7 bundles, histories of 12-14 steps (random walks); 1000/1001-file bundles in a separate small run',
          technique='TLA+ model checking (TLC) of Meta.tla + replay of TLC-generated API behaviours on pkg/core with state projection compare'),
